@@ -383,32 +383,44 @@ Qed.
 (* panic, as far as a reading of the files found them (81 entries: file,    *)
 (* function, expression, kind, guard, coverage).  Coq does NOT check that   *)
 (* the list is complete.  It checks the coverage column, and only for the   *)
-(* two constructors of fixed shape (model/UntrustedPanicSites.v):           *)
-(*   CModel op w f pf       op : X -> outcome Y can panic (w : exists x,     *)
-(*                          op x = Panic); f, the model function performing *)
-(*                          it behind the guard, never does (pf)            *)
-(*   CLemma raw w guard pf  the site as written WITHOUT its guard can panic *)
-(*                          (w); under the guard it cannot (pf)             *)
+(* two constructors that take the function containing the site as a        *)
+(* FUNCTIONAL of the panicking operation (model/UntrustedPanicSites.v,      *)
+(* proofs/UntrustedSiteFunctionals.v; fourth audit C1 - the earlier shapes  *)
+(* could be inhabited by an unrelated function or a guard nobody            *)
+(* establishes, see the Fail tests at the end of the table file):           *)
+(*   CModel op w F reach f same pf   op can panic (w); F = the body of the   *)
+(*                          model function f over the operation (same);     *)
+(*                          with an always-panicking operation F panics on  *)
+(*                          some input (reach: the operation IS called);    *)
+(*                          f never panics (pf)                             *)
+(*   CLemma raw w F reach pf   the same for the statements as written in    *)
+(*                          the Go function (its test included) over the    *)
+(*                          raw machine-integer operation                   *)
 (* Entries tagged CArgued / CStdlib / CHarnessOnly carry no theorem.        *)
 (* ======================================================================== *)
 
-(* The table type-checks, i.e. each of its 15 CModel and 13 CLemma entries
-   holds a function into `outcome`, an input on which the unguarded operation
-   panics, and a proof that the guarded one never does.  The other 53 entries
-   carry no theorem: 46 argued in prose (constant bounds, static types, values
-   tink-go built itself, nil-safe getters = total getters of the model, integer
-   conversions - which wrap rather than panic; their comparisons are the next
-   theorems), 6 inside the standard library, 1 decided by the harness alone
-   (Handle.KeysetInfo's panic(err)).  Since the second stretch round the
-   parameters parsers reached through an ECIES DEM template, the PRF-based
-   deriver key parser and the nested-key detours of the composite parsers are
-   CModel entries (model/UntrustedParams.v).
-   The counts are counts of constructors, not a measure of completeness. *)
+(* The table type-checks, i.e. each of its 7 CModel and 10 CLemma entries
+   holds an operation with a panicking input, a function that really calls it
+   (it panics on some input when the operation is replaced by an always-
+   panicking one) and a proof that the function over the real operation never
+   panics - so whatever test stands in front of the operation inside that
+   function suffices.  The other 64 entries carry no theorem: 57 argued in prose
+   (constant bounds, static types, values tink-go built itself, nil-safe
+   getters = total getters of the model, parsers whose only checked operation
+   sits inside fixed_size - which has its own entry -, guards established by
+   another function, the nested-parser detours - whose theorem is
+   C14_nested_parsers_never_panic_and_agree -, the parameters parsers - 28 of
+   29 have no Panic constructor -, integer conversions, and make([]byte,
+   KeySizeInBytes()) of the key derivers under a 64-bit platform assumption),
+   6 inside the standard library, 1 decided by the harness alone
+   (Handle.KeysetInfo's panic(err)).  With the functional shapes a count can no
+   longer be raised by an entry about an unrelated function; the counts are
+   still counts of constructors, not a measure of completeness. *)
 Theorem C14_panic_site_table_coverage :
   (length panic_sites = 81)%nat /\
-  (UntrustedPanicSites.count by_model_theorem panic_sites = 15)%nat /\
-  (UntrustedPanicSites.count by_site_lemma panic_sites = 13)%nat /\
-  (UntrustedPanicSites.count argued_only panic_sites = 46)%nat /\
+  (UntrustedPanicSites.count by_model_theorem panic_sites = 7)%nat /\
+  (UntrustedPanicSites.count by_site_lemma panic_sites = 10)%nat /\
+  (UntrustedPanicSites.count argued_only panic_sites = 57)%nat /\
   (UntrustedPanicSites.count is_stdlib panic_sites = 6)%nat /\
   (UntrustedPanicSites.count is_harness_only panic_sites = 1)%nat.
 Proof. exact panic_site_coverage_counts. Qed.
@@ -495,10 +507,27 @@ Proof. repeat split; vm_compute; reflexivity. Qed.
 (* key type (xread ...: no keyset is left to the direct check any more).    *)
 (* ======================================================================== *)
 
-(* protoserialization.ParseParameters never panics: for every key template,
-   whatever type URL it names and however deeply templates nest (ECIES DEM
-   template, the two templates of a deriver format), with any fuel; and the
-   fuel S (length of the value) is never what stops the recursion. *)
+(* The MODEL of protoserialization.ParseParameters (29 registered parameters
+   parsers) never returns Panic: for every key template, whatever type URL it
+   names and whatever the nesting of templates in it (ECIES DEM template, the
+   two templates of a deriver format), with any fuel; and the fuel S (length of
+   the value) is never what stops the recursion.
+   What this says and what it does not (fourth audit C3 - C5):
+   - 28 of the 29 parsers (26 pp_* leaves - pp_jwt_rsa stands for two -, and
+     pp_deriver) have NO Panic constructor in their definition: for them the
+     statement holds by construction.  Its content is ecies_params_of - the one
+     checked operation set_prefix_raw behind its nil test - and the recursion.
+   - running out of fuel is represented as Err, not as a fourth outcome; the
+     third conjunct is why that never decides: every fuel above the length of
+     the value gives the answer of parse_params_full, so that Err is never the
+     fuel's.
+   - it is a statement about the model's VERDICT, not about the cost of the
+     code: hybrid/ecies parseParameters keeps the decoded format alive across
+     the recursive ParseParameters(demTemplate), so an ECIES format nested n
+     times as its own DEM template costs live memory quadratic in n before the
+     innermost level is refused (measured: depth 1000 / 89 KB -> 66 MB, 2000 ->
+     222 MB, 4000 / 359 KB -> 856 MB, 6000 -> 2 GB, then an error); the harness
+     has one case of depth 1500 (verdict: error, as the model says). *)
 Theorem C14_parameters_parsers_never_panic :
   (forall fuel t, parse_params fuel t <> Panic)
   /\ (forall t, parse_params_full t <> Panic)
@@ -511,7 +540,11 @@ Print Assumptions C14_parameters_parsers_never_panic.
    is the one registered for the template's type URL, it asks for an id
    requirement exactly when the template's prefix type is not RAW, and the
    prefix type written back for it is the template's (LEGACY as CRUNCHY for
-   the packages without a legacy variant). *)
+   the packages without a legacy variant).  params_wf bounds every size by the
+   uint32 range of its field where the parser puts no other upper bound.  The
+   conjunct qtag p = url_qtag (t_url t) is a restatement of the dispatch of
+   parse_params (the constructor is the one of the branch taken): bookkeeping,
+   not a property of the code. *)
 Theorem C14_accepted_parameters_wellformed :
   forall t p, parse_params_full t = Ok p ->
     params_wf p
@@ -548,7 +581,10 @@ Print Assumptions C14_ecies_dem_detour_is_the_shortcut.
    S (length value) it is the recursion-free parse_key_flat: model/Untrusted.v's
    parse_key for every type but the deriver (so a nested key of an unexpected
    type is refused - as that model said - but only after its parser ran), and
-   for a deriver the parser with its nested key handed to that parse_key. *)
+   for a deriver the parser with its nested key handed to that parse_key.
+   The third conjunct is the second one with the definition of parse_key_flat
+   unfolded for a non-deriver URL (substitution grade); the content is in the
+   first, second and fourth. *)
 Theorem C14_nested_parsers_never_panic_and_agree :
   forall (L : stdlib) kd prefix idreq,
     (forall fuel, parse_key_x L fuel kd prefix idreq <> Panic)
@@ -568,7 +604,8 @@ Print Assumptions C14_nested_parsers_never_panic_and_agree.
    RAW, no id requirement) as an HKDF / HMAC / AES-CMAC PRF key, its derived
    key template carries the key's own prefix type and was accepted by the
    parameters parser of its type (hence a well-formed object), and a key
-   without id requirement was not given an id. *)
+   without id requirement was not given an id.   (An inversion of parse_deriver through
+   parse_key_full = parse_key_flat: it reads the parser's checks off an Ok.) *)
 Theorem C14_deriver_key_parts :
   forall (L : stdlib) kd prefix idreq prf dp,
     parse_key_full L kd prefix idreq = Ok (XDeriver prf dp) ->
@@ -581,7 +618,11 @@ Theorem C14_deriver_key_parts :
 Proof. exact deriver_key_parts. Qed.
 Print Assumptions C14_deriver_key_parts.
 
-(* The readers over every registered key type never panic ... *)
+(* The readers over every registered key type never return Panic ...  (content:
+   the checked operations of model/Untrusted.v's parsers - theorem
+   C14_parser_and_constructor_never_panic -, set_prefix_raw, and the recursion
+   over nested key data and templates; the keyset layer and 28 of the 29
+   parameters parsers have no Panic constructor in their definitions) *)
 Theorem C14_all_types_readers_never_panic :
   forall L : stdlib,
     (forall b, xread L b <> Panic)
@@ -598,7 +639,9 @@ Print Assumptions C14_all_types_readers_never_panic.
 (* ... every handle they return is well formed (UntrustedParamsSpec.wf_xhandle:
    the clauses of wf_handle, and deriver_wf for each PRF-based deriver key in
    it) and its entries are the keys of the well-formed keyset in order; the
-   no-secrets readers hand out no deriver key (it serialises as SYMMETRIC) ... *)
+   no-secrets readers hand out no deriver key (it serialises as SYMMETRIC: the
+   last conjunct is that one-line consequence of xout_material, substitution
+   grade) ... *)
 Theorem C14_all_types_accepted_handle_wellformed :
   forall L : stdlib,
     (forall b h, xread L b = Ok h -> exists ks, decode_keyset b = Some ks /\ xaccepted_as ks h)
@@ -637,7 +680,8 @@ Proof. exact xmalformed_rejected_everywhere. Qed.
 Print Assumptions C14_all_types_malformed_rejected.
 
 (* ... and on keysets without a deriver key they ARE the readers of
-   model/Untrusted.v (every theorem above about read carries over). *)
+   model/Untrusted.v (every theorem above about read carries over).  A
+   model-to-model statement: it says nothing about the code by itself. *)
 Theorem C14_all_types_readers_conservative :
   forall (L : stdlib) b ks, decode_keyset b = Some ks -> any_deriver ks = false ->
     xread L b = embed_handle (read L b)
